@@ -1,20 +1,21 @@
 (* C11 model, part 2: what INSERT / UPDATE / DELETE / close+reopen / SELECT do to one table
    `t (k BIGINT [PRIMARY KEY], c <TYPE>)` as far as the stored value of column c is concerned.
-   Transcribed from
+   Transcribed from the tree with the repairs 60cb117 (row counter restored at open), 16c5acb (detoasted
+   values typed by their column), 1b44555 (UPDATE toasts under the row id) and 170f3f6 (values that look
+   like a TOAST pointer are stored out of line):
      src/database/dml/insert.rs   (row id from the per-Database counter next_row_id, which Database::open sets
                                    behind the largest stored row key; TOAST of Text/Blob values above the
-                                   threshold, the pointer stored as a Blob; then the row insert, which fails
-                                   on an existing row key)
+                                   threshold or pointer-like, the pointer stored as a Blob; then the row
+                                   insert, which fails on an existing row key)
      src/database/batch.rs        (insert_cached: a re-executed prepared INSERT stores every value inline)
-     src/database/dml/update.rs   (old TOAST chunks deleted first; new chunks written under the row id
-                                   "primary-key value, or 0 when there is no integer primary key";
-                                   execute_update_param_only for a re-executed prepared UPDATE .. WHERE pk = ?)
+     src/database/dml/update.rs   (old TOAST chunks deleted, new chunks written under the row id of the row
+                                   key; execute_update_param_only for a re-executed prepared UPDATE .. WHERE pk = ?)
      src/database/dml/delete.rs   (chunks of the deleted row removed)
      src/types/owned_value.rs     (from_record_column: is_toast_pointer decides ToastPointer vs Text/Blob)
-     src/database/toast.rs        (detoast_rows: TEXT or BLOB by UTF-8 validity of the reassembled bytes)
+     src/database/toast.rs        (detoast_rows: TEXT or BLOB by the type of the column the pointer names)
    The record codec itself (C31) and the scalar conversions are taken as the identity here.
-   Also in this file: the property's own oracle on a history (spec_hist) and the classes of the
-   recorded findings.  Definitions only. *)
+   Also in this file: the property's own oracle on a history (spec_hist) and the class of the one
+   defect that survives the repairs.  Definitions only. *)
 From Coq Require Import ZArith List Bool.
 From TV Require Import Lib.MachInt Gen.Toast Model.Toast Model.Utf8.
 Import ListNotations.
@@ -59,7 +60,7 @@ Record state := mkst {
   ins_cached : bool;       (* the session's prepared INSERT has been executed before *)
   upd_cached : bool;       (* the session's prepared UPDATE has been executed before *)
   dead : bool;             (* process aborted *)
-  lost : bool;             (* an UPDATE deleted the old chunks and then failed (finding class 3) *)
+  fake : bool;             (* a re-executed prepared INSERT has put pointer-like bytes into a record (finding class 4) *)
   gone : list Z            (* row ids of deleted rows: DELETE leaves the row key in the table B-tree (a tombstone) *)
 }.
 Definition st0 : state := mkst 1 [] tempty false false false false [].
@@ -93,15 +94,20 @@ Definition store_scalar (v : value) : stored := match v with VNull => SNull | _ 
 (* delete_toast_chunks for the old value, when from_record_column shows it as a ToastPointer *)
 Definition drop_old (m : tmap) (s : stored) : tmap :=
   match s with SBytes b => if is_toast_pointer b then del_pointer m b else m | _ => m end.
-Definition old_is_pointer (s : stored) : bool :=
-  match s with SBytes b => is_toast_pointer b | _ => false end.
+(* does the write path send the bytes through TOAST although they are short?  INSERT asks is_toast_pointer of
+   Text and Blob bytes, UPDATE of Blob bytes only (170f3f6) *)
+Definition ptr_like (upd : bool) (v : value) (b : list Z) : bool :=
+  match v with
+  | VText _ => if upd then false else is_toast_pointer b
+  | _ => is_toast_pointer b
+  end.
 
 (* toast_value as INSERT and UPDATE use it: the value as it goes into the record and the toast table
    afterwards; None = the statement fails (a chunk key is already there), the chunks written before stay *)
-Definition put_value (m : tmap) (row_id : Z) (v : value) : tmap * option stored :=
+Definition put_value (upd : bool) (m : tmap) (row_id : Z) (v : value) : tmap * option stored :=
   match var_bytes v with
   | Some b =>
-      if needs_toast b then
+      if needs_toast b || ptr_like upd v b then
         let '(m', ok) := toast_write m (chunk_id_of row_id COL_C) b in
         (m', if ok then Some (SBytes (ptr_encode (blen b) (chunk_id_of row_id COL_C))) else None)
       else (m, Some (SBytes b))
@@ -119,32 +125,32 @@ Definition step_ins (st : state) (p : path) (k : Z) (v : value) : state * sobs :
   let cached := match p with PS => ins_cached st | _ => false end in
   let ic := match p with PS => true | _ => ins_cached st end in
   let rid := next_rid st in
-  let ms := if cached then put_value_cached (toast st) v else put_value (toast st) rid v in
+  let ms := if cached then put_value_cached (toast st) v else put_value false (toast st) rid v in
+  let fk := fake st || (cached && match var_bytes v with Some b => is_toast_pointer b | None => false end) in
   match snd ms with
-  | None => (mkst (rid + 1) (rows st) (fst ms) ic (upd_cached st) (dead st) (lost st) (gone st), SWrote false)
+  | None => (mkst (rid + 1) (rows st) (fst ms) ic (upd_cached st) (dead st) fk (gone st), SWrote false)
   | Some s =>
       (* the row insert: BTree::insert fails on an existing row key (live or tombstone) *)
       if has_rid rid (rows st) || existsb (Z.eqb rid) (gone st)
-      then (mkst (rid + 1) (rows st) (fst ms) ic (upd_cached st) (dead st) (lost st) (gone st), SWrote false)
-      else (mkst (rid + 1) (ins_row (mkrow rid k s) (rows st)) (fst ms) ic (upd_cached st) (dead st) (lost st) (gone st), SWrote true)
+      then (mkst (rid + 1) (rows st) (fst ms) ic (upd_cached st) (dead st) fk (gone st), SWrote false)
+      else (mkst (rid + 1) (ins_row (mkrow rid k s) (rows st)) (fst ms) ic (upd_cached st) (dead st) fk (gone st), SWrote true)
   end.
 
 Definition step_upd (pk : bool) (st : state) (p : path) (k : Z) (v : value) : state * sobs :=
   let cached := match p with PS => upd_cached st | _ => false end in
   let uc := match p with PS => true | _ => upd_cached st end in
-  let st1 := mkst (next_rid st) (rows st) (toast st) (ins_cached st) uc (dead st) (lost st) (gone st) in
+  let st1 := mkst (next_rid st) (rows st) (toast st) (ins_cached st) uc (dead st) (fake st) (gone st) in
   match find_k k (rows st) with
   | None => (st1, SWrote true)                                         (* 0 rows affected *)
   | Some r =>
       if cached && pk then (st1, SWrote false)                         (* execute_update_param_only: "unknown record format" *)
       else
-        (* delete_toast_chunks for the old pointer, then toast_value under row id = pk value (0 without an integer pk) *)
+        (* delete_toast_chunks for the old pointer, then toast_value under the row id of the row key *)
         let m1 := drop_old (toast st) (r_st r) in
-        let pkv := if pk then wrap_u 64 k else 0 in
-        let ms := put_value m1 pkv v in
+        let ms := put_value true m1 (r_rid r) v in
         match snd ms with
-        | Some s => (mkst (next_rid st) (set_row k s (rows st)) (fst ms) (ins_cached st) uc (dead st) (lost st) (gone st), SWrote true)
-        | None => (mkst (next_rid st) (rows st) (fst ms) (ins_cached st) uc (dead st) (lost st || old_is_pointer (r_st r)) (gone st), SWrote false)
+        | Some s => (mkst (next_rid st) (set_row k s (rows st)) (fst ms) (ins_cached st) uc (dead st) (fake st) (gone st), SWrote true)
+        | None => (mkst (next_rid st) (rows st) (fst ms) (ins_cached st) uc (dead st) (fake st) (gone st), SWrote false)
         end
   end.
 
@@ -152,7 +158,7 @@ Definition step_del (st : state) (k : Z) : state * sobs :=
   match find_k k (rows st) with
   | None => (st, SWrote true)
   | Some r => (mkst (next_rid st) (del_row k (rows st)) (drop_old (toast st) (r_st r))
-                    (ins_cached st) (upd_cached st) (dead st) (lost st) (r_rid r :: gone st), SWrote true)
+                    (ins_cached st) (upd_cached st) (dead st) (fake st) (r_rid r :: gone st), SWrote true)
   end.
 
 (* ---- SELECT: from_record_column, then detoast_rows *)
@@ -165,7 +171,14 @@ Definition read_value (ty : colty) (m : tmap) (s : stored) : rres :=
   | SBytes b =>
       if is_toast_pointer b then
         match detoast m b with
-        | DOk d => ROk (if valid_utf8 d then VText d else VBlob d)
+        | DOk d =>
+            (* column_types.get(pointer.column_index()): the table is (k BIGINT, c ty) *)
+            let is_text := match ptr_decode b with
+                           | Some (t, c) => (ptr_column_index t c =? COL_C) && (match ty with TText => true | _ => false end)
+                           | None => false
+                           end in
+            if is_text then (if valid_utf8 d then ROk (VText d) else RErr)   (* String::from_utf8(data)? *)
+            else ROk (VBlob d)
         | DErr => RErr | DPanic => RPanic | DAbort => RAbort | DUnknown => RUnknown
         end
       else match ty with
@@ -195,7 +208,7 @@ Definition step_query (ty : colty) (st : state) : state * sobs :=
   | Some r => (st, SRows r)
   | None =>
       if existsb is_unknown l then (st, SWeird)
-      else if existsb is_abort l then (mkst (next_rid st) (rows st) (toast st) (ins_cached st) (upd_cached st) true (lost st) (gone st), SQueryAbort)
+      else if existsb is_abort l then (mkst (next_rid st) (rows st) (toast st) (ins_cached st) (upd_cached st) true (fake st) (gone st), SQueryAbort)
       else if existsb is_panic l then (st, SQueryPanic)
       else (st, SQueryErr)
   end.
@@ -204,7 +217,7 @@ Definition step_query (ty : colty) (st : state) : state * sobs :=
    stored in the table B-tree - live rows and the tombstones of deleted ones *)
 Definition max_rid (st : state) : Z := fold_left Z.max (map r_rid (rows st) ++ gone st) 0.
 Definition step_reopen (st : state) : state * sobs :=
-  (mkst (Z.max 1 (max_rid st + 1)) (rows st) (toast st) false false (dead st) (lost st) (gone st), SReopened true).
+  (mkst (Z.max 1 (max_rid st + 1)) (rows st) (toast st) false false (dead st) (fake st) (gone st), SReopened true).
 
 Definition step (ty : colty) (pk : bool) (st : state) (o : op) : state * sobs :=
   if dead st then (st, SNotRun) else
@@ -286,28 +299,10 @@ Fixpoint spec_from (e : list (Z * value)) (steps : list (op * sobs)) : bool :=
 Definition spec_hist (ops : list op) (obs : list sobs) : bool :=
   (length ops =? length obs)%nat && spec_from [] (combine ops obs).
 
-(* ================================================================ recorded finding classes *)
-Definition written (o : op) : option value :=
-  match o with OIns _ _ v => Some v | OUpd _ _ v => Some v | _ => None end.
-
-(* class 2: a text/blob value that is_toast_pointer accepts (17 bytes, first 0xFE) *)
-Definition fake_pointer_op (o : op) : bool :=
-  match written o with
-  | Some v => match var_bytes v with Some b => is_toast_pointer b | None => false end
-  | None => false
-  end.
-(* class 1: a Blob above the TOAST threshold whose bytes are valid UTF-8 *)
-Definition utf8_blob_op (o : op) : bool :=
-  match written o with
-  | Some (VBlob b) => needs_toast b && valid_utf8 b
-  | _ => false
-  end.
-
+(* ================================================================ the finding class that survives the repairs *)
+(* class 4: a 17-byte 0xFE-led value written by a re-executed prepared INSERT (insert_cached does not TOAST) *)
 Definition hist_class (ty : colty) (pk : bool) (ops : list op) : Z :=
-  if existsb fake_pointer_op ops then 2
-  else if lost (final ty pk ops) then 3
-  else if existsb utf8_blob_op ops then 1
-  else 0.
+  if fake (final ty pk ops) then 4 else 0.
 
 (* ================================================================ histories the theorem speaks about *)
 Definition val_ok (ty : colty) (v : value) : bool :=
@@ -332,6 +327,7 @@ Fixpoint ins_keys (ops : list op) : list Z :=
 Fixpoint nodup_z (l : list Z) : bool :=
   match l with [] => true | x :: t => negb (existsb (Z.eqb x) t) && nodup_z t end.
 
-(* values fit the column; no key is inserted twice; fewer than 2^60 steps (row ids stay u64) *)
+(* values fit the column; no key is inserted twice; fewer than 2^47 steps (row ids stay below 2^48, where
+   chunk ids are injective) *)
 Definition wf_hist (ty : colty) (ops : list op) : bool :=
-  forallb (op_ok ty) ops && nodup_z (ins_keys ops) && (Z.of_nat (length ops) <? 2 ^ 60).
+  forallb (op_ok ty) ops && nodup_z (ins_keys ops) && (Z.of_nat (length ops) <? 2 ^ 47).
